@@ -181,7 +181,9 @@ impl Dictionary for MutableDictionary {
                     None
                 }
             })
-            .sorted_unstable_by_key(|a| a.1)
+            // Break ties by spelling: the word map iterates in a per-process random order, and
+            // the order decides both which results survive the cap and how suggestions are ranked.
+            .sorted_unstable_by(|a, b| a.1.cmp(&b.1).then_with(|| a.0.cmp(b.0)))
             .take(max_results)
             .map(|(word, edit_distance)| FuzzyMatchResult {
                 word,
